@@ -3,7 +3,7 @@
 From Coq Require Import Permutation.
 From SC Require Import Lib.Prelude Lib.Int Lib.Host Model.Nft Run.NftCommon Proofs.NftMaps Proofs.NftFrame
   Proofs.NftInv Proofs.NftCons Proofs.NftOwn Proofs.NftSim Proofs.NftCard Proofs.NftEnum Run.C10 Proofs.C10Card
-  Proofs.C10Sim Proofs.C10Live.
+  Proofs.C10Sim Proofs.C10Live Model.NftBits Model.NftBitsRun Proofs.NftBits Proofs.NftBitsRun.
 Local Open Scope N_scope.
 
 (* ---------- well-formedness of the queries (a boolean the harness inputs satisfy) ---------- *)
@@ -211,9 +211,22 @@ Proof.
     apply oaddr_eqb_eq in E2. apply N.leb_le in E3.
     pose proof Hs as (((_&Hb&_)&_)&_). rewrite <- Hb in E3.
     destruct (owner_transfer_progress fl c s g auths from to id Hs E1 E2 E3) as [s' X]. rewrite X in He. discriminate.
+  - destruct (has_auth auths spender && oaddr_eqb (rget (g_own g) id) (Some from)
+              && ((spender =? from) || oaddr_eqb (live_appr g id) (Some spender) || live_oper g from spender)
+              && (cnt (g_cnt g) to + 1 <=? MAXU32N)) eqn:E; [|reflexivity].
+    repeat (apply andb_true_iff in E; destruct E as [E ?]). apply oaddr_eqb_eq in H1. apply N.leb_le in H.
+    pose proof Hs as ((Hc&_)&_). pose proof Hc as (_&Hb&_). rewrite <- Hb in H.
+    rewrite (transfer_from_as_transfer fl c s auths spender from to id E (spender_check_progress s g spender from id Hc H0)) in He.
+    destruct (owner_transfer_progress fl c s g [from] from to id Hs (has_auth_self from) H1 H) as [s' X]. rewrite X in He. discriminate.
   - destruct (has_auth auths from && oaddr_eqb (rget (g_own g) id) (Some from)) eqn:E; [|reflexivity].
     apply andb_true_iff in E. destruct E as [E1 E2]. apply oaddr_eqb_eq in E2.
     destruct (owner_burn_progress fl c s g auths from id Hs E1 E2) as [s' X]. rewrite X in He. discriminate.
+  - destruct (has_auth auths spender && oaddr_eqb (rget (g_own g) id) (Some from)
+              && ((spender =? from) || oaddr_eqb (live_appr g id) (Some spender) || live_oper g from spender)) eqn:E; [|reflexivity].
+    repeat (apply andb_true_iff in E; destruct E as [E ?]). apply oaddr_eqb_eq in H0.
+    pose proof Hs as ((Hc&_)&_).
+    rewrite (burn_from_as_burn fl c s auths spender from id E (spender_check_progress s g spender from id Hc H)) in He.
+    destruct (owner_burn_progress fl c s g [from] from id Hs (has_auth_self from) H0) as [s' X]. rewrite X in He. discriminate.
 Qed.
 
 Lemma mon_model_steps fl c full l : forall s g i,
@@ -231,10 +244,49 @@ Proof.
     rewrite (c10_obs_model fl c full s g sh Hs Hsh). cbn [andb]. apply IH; assumption.
 Qed.
 
-Theorem c10_check_accepts_model fl c now0 full l :
-  wf_run fl c full (init now0) l = true ->
-  check (model_trace fl c now0 full l) = (0, 0, 0).
+(* ---------- the bit-level replay of the model's own consecutive traces has an empty diff ---------- *)
+Lemma dump_model_idem bs d : dump_model bs (dump_model bs d) = dump_model bs d.
+Proof. unfold dump_model. rewrite map_map. apply map_ext. intros [k v]. reflexivity. Qed.
+Lemma bdump_eqb_refl d : bdump_eqb d d = true.
 Proof.
-  intros Hwf. unfold check. rewrite diff_model_trace. unfold monitor, model_trace. cbn [t_fl t_cfg t_full t_now0 t_steps].
+  unfold bdump_eqb. apply list_eqb_refl. intros [k [[n l]|]]; cbn [fst snd]; rewrite N.eqb_refl; [|reflexivity].
+  unfold words_eqb. cbn [fst snd]. rewrite N.eqb_refl. cbn [andb]. apply list_eqb_refl.
+  intros [i w]. cbn [fst snd]. rewrite !N.eqb_refl. reflexivity.
+Qed.
+Lemma bcfg_okb_ok b c : bcfg_okb b c = true -> bcfg_ok b c.
+Proof.
+  unfold bcfg_okb, bcfg_ok. intros H. apply andb_true_iff in H. destruct H as [H H3]. apply andb_true_iff in H. destruct H as [H1 H2].
+  apply N.ltb_lt in H1, H2. apply N.eqb_eq in H3. auto.
+Qed.
+
+Lemma diffb_model b c l : bcfg_ok b c -> forall (s : state) (bs : buckets) shapes i, Good b (s, bs) ->
+  diffb_from b c (s, bs) (model_steps FCons c s l) (model_dumps b c (s, bs) l shapes) i = 0.
+Proof.
+  intros Hok. induction l as [|[cl sh] r IH]; intros s bs shapes i Hg; cbn [model_steps diffb_from model_dumps]; [reflexivity|].
+  destruct (step_sim' b c s bs cl Hok Hg) as (bs'&E&Hg').
+  destruct (step FCons c s cl) as [s' o'] eqn:Es. cbn [fst snd] in E, Hg'. cbn [diffb_from]. rewrite E. cbn [fst snd tl].
+  rewrite out_eqb_refl. cbn [andb].
+  assert (Ho : forallb (fun p : N * option addr => oaddr_eqb (snd p) (cons_owner_of_b b (s', bs') (fst p)))
+                 (o_owner (model_obs FCons c s' sh)) = true).
+  { apply forallb_forall. intros x Hx. unfold model_obs in Hx. cbn [o_owner] in Hx. apply in_map_iff in Hx.
+    destruct Hx as (p&<-&_). cbn [fst snd owner_of]. rewrite (owner_of_b_eq b c s' bs' (fst p) Hok Hg'). apply oaddr_eqb_refl'. }
+  rewrite Ho, dump_model_idem, bdump_eqb_refl. cbn [andb]. apply IH. exact Hg'.
+Qed.
+
+Lemma diff_bits_model fl c b now0 full l shapes : (fl = FCons -> bcfg_okb b c = true) ->
+  diff_bits (model_btrace fl c b now0 full l shapes) = 0.
+Proof.
+  intros Hb. unfold diff_bits, model_btrace, model_trace. cbn [bt_trace bt_bcfg bt_dumps t_fl t_cfg t_now0 t_steps].
+  destruct fl; try reflexivity. rewrite (Hb eq_refl).
+  apply diffb_model; [apply bcfg_okb_ok; apply Hb; reflexivity | apply good_init].
+Qed.
+
+Theorem c10_check_accepts_model fl c b now0 full l shapes :
+  wf_run fl c full (init now0) l = true -> (fl = FCons -> bcfg_okb b c = true) ->
+  check (model_btrace fl c b now0 full l shapes) = (0, 0, 0).
+Proof.
+  intros Hwf Hb. unfold check. rewrite (diff_bits_model fl c b now0 full l shapes Hb).
+  unfold model_btrace. cbn [bt_trace]. rewrite diff_model_trace. cbn [first_diff N.eqb].
+  unfold monitor, model_trace. cbn [t_fl t_cfg t_full t_now0 t_steps].
   rewrite (mon_model_steps fl c full l _ _ 0 (sim10_init fl now0) Hwf). reflexivity.
 Qed.
